@@ -72,13 +72,19 @@ pub fn c20_tagtype_roundtrip() {
 pub fn c20_tagtype_eq() {
     let a: u32 = nd::any();
     let b: u32 = nd::any();
-    let ta = TagType::from(a);
-    let tb = TagType::from(b);
+    // symbolic types as conversion produces them, or user-constructed `Custom(n)` for ANY n
+    // (a `Custom` holding a specified number still has that number as its value)
+    let canon = nd::any_bool();
+    let ta = if canon { TagType::from(a) } else { TagType::Custom(a) };
+    let tb = if canon { TagType::from(b) } else { TagType::Custom(b) };
+    vassert!(u32::from(ta) == a && ta.val() == a && u32::from(TagTypeId::from(ta)) == a, "a symbolic type's number is the value it was made from");
     let ia = TagTypeId::from(a);
     let ib = TagTypeId::from(b);
     let num = a == b;
     let mut ok = true;
-    ok &= (ta == tb) == num;
+    if canon {
+        ok &= (ta == tb) == num;
+    }
     ok &= (ia == ib) == num;
     ok &= (ta == ib) == num;
     ok &= (ia == tb) == num;
@@ -88,6 +94,7 @@ pub fn c20_tagtype_eq() {
     ok &= (a == tb) == num;
     cover!(num, "equal pair");
     cover!(!num && a < 22 && b >= 22, "named vs custom");
+    cover!(!canon && num && a < 22, "user-made Custom holding a specified number");
     vassert!(ok, "equality between raw numbers, ids and symbolic types is numeric equality");
 }
 
